@@ -290,6 +290,14 @@ impl Prop for Cong {
             "C02"
         }
     }
+    fn configs(&self, tier: Tier) -> Vec<&'static str> {
+        // the `explanations` feature changes the insertion/union code paths (syntactic classes, proofs):
+        // the thorough tier also runs the whole exploration in that build
+        match tier {
+            Tier::Quick => vec!["base"],
+            Tier::Thorough => vec!["base", "expl"],
+        }
+    }
     fn segments(&self, tier: Tier, _cfg: &str) -> Vec<Seg> {
         self.segs(tier).iter().map(|s| s.seg.clone()).collect()
     }
